@@ -16,6 +16,7 @@ Inductive iout :=
 Inductive item :=
 | IProbe (c : nat) (vals : list cval) (o : opnd)
 | IAll (c : nat) (dom : list Z)                  (* all ordered pairs over dom^k *)
+| IAllV (c : nat) (dom : list cval)              (* the same over arbitrary values (None, '', …) *)
 | IRow (c : nat) (dom : list Z) (xv : list Z)    (* x fixed, y ranges over dom^k *)
 | IPair (c : nat) (xv : list Z) (c' : nat) (yv : list Z).
 
@@ -66,6 +67,11 @@ Definition run_item (chain : list cls) (sc : script) (it : item) : iout :=
   | IAll c dom =>
       let attrs := attrs_at chain c in
       let vs := vectors (map Vi dom) (length attrs) in
+      OAll (flat_map (fun xv => flat_map (fun yv =>
+              codes2 (run_pair chain sc (mk_inst c attrs xv) (OInst (mk_inst c attrs yv)))) vs) vs)
+  | IAllV c dom =>
+      let attrs := attrs_at chain c in
+      let vs := vectors dom (length attrs) in
       OAll (flat_map (fun xv => flat_map (fun yv =>
               codes2 (run_pair chain sc (mk_inst c attrs xv) (OInst (mk_inst c attrs yv)))) vs) vs)
   | IRow c dom xv =>
